@@ -91,6 +91,13 @@ type Task struct {
 
 	prio int // pct
 
+	// RWMutex writer preference (see admissible)
+	parks    uint64 // number of parks so far
+	parkStep int    // scheduler step at which it parked
+	rwWait  *Task  // reader: the blocked writer it queued behind (nil: a writer that held the lock)
+	rwEpoch uint64 // reader: rwWait.parks when it queued
+	rwQueue bool   // reader: it has been found blocked at this site
+
 	PanicVal   any
 	PanicStack string
 	reported   bool
@@ -367,6 +374,9 @@ var active atomic.Pointer[Sim]
 //go:norace
 func (t *Task) park(site Site) {
 	t.site = site
+	t.parks++
+	t.parkStep = t.sim.Steps
+	t.rwWait, t.rwQueue = nil, false
 	// The scheduler must see everything this task did (one-way edge); nothing
 	// of the hand-off may order this task after other tasks in the eyes of the
 	// race detector.
@@ -935,12 +945,31 @@ func (s *Sim) admissible(t *Task) bool {
 		}
 		return false
 	case SiteRLock:
+		// sync.RWMutex prefers writers: "if any goroutine calls Lock while the lock is
+		// already held by one or more readers, concurrent calls to RLock will block
+		// until the writer has acquired (and released) the lock". A writer that is
+		// parked at its Lock while readers hold the mutex has made that call; the real
+		// mutex never sees it (the task is released only once TryLock would succeed),
+		// so the rule is applied here. Readers that were already queued behind a
+		// writer which has meanwhile released are through (the real Unlock admits
+		// them before the next writer).
 		m := (*sync.RWMutex)(t.site.Obj)
-		if m.TryRLock() {
-			m.RUnlock()
+		if !m.TryRLock() {
+			t.rwQueue = true // a writer holds the lock
+			return false
+		}
+		m.RUnlock()
+		if t.rwQueue {
+			if w := t.rwWait; w != nil && w.state.Load() == stParked && w.site.Kind == SiteWLock && w.site.Obj == t.site.Obj && w.parks == t.rwEpoch {
+				return false // the writer it queued behind has not even acquired yet
+			}
 			return true
 		}
-		return false
+		if w := s.blockedWriter(t.site.Obj); w != nil {
+			t.rwQueue, t.rwWait, t.rwEpoch = true, w, w.parks
+			return false
+		}
+		return true
 	case SiteWLock:
 		m := (*sync.RWMutex)(t.site.Obj)
 		if m.TryLock() {
@@ -964,6 +993,31 @@ func (s *Sim) admissible(t *Task) bool {
 		return true
 	}
 	return true
+}
+
+// blockedWriter returns the task that has been parked longest at Lock of the
+// RWMutex m while readers hold it (no writer holds it: the caller's TryRLock
+// succeeded), or nil.
+//
+//go:norace
+func (s *Sim) blockedWriter(m unsafe.Pointer) *Task {
+	var first *Task
+	for _, w := range s.tasks {
+		if w.state.Load() == stParked && w.site.Kind == SiteWLock && w.site.Obj == m && !w.killed.Load() {
+			if first == nil || w.parkStep < first.parkStep {
+				first = w
+			}
+		}
+	}
+	if first == nil {
+		return nil
+	}
+	mu := (*sync.RWMutex)(m)
+	if mu.TryLock() {
+		mu.Unlock()
+		return nil // free: the writer is not blocked, it just has not been scheduled yet
+	}
+	return first
 }
 
 //go:norace
